@@ -82,7 +82,7 @@ def guarded(fn):
         return {"err": exc_enum(e), "msg": str(e)[:160]}
 
 
-def observe(folder, names, xarray=True):
+def observe(folder, names, xarray=True, subset=None):
     from pipefunc.map import load_outputs, load_xarray_dataset
     from pipefunc.map._run_info import RunInfo
 
@@ -94,6 +94,11 @@ def observe(folder, names, xarray=True):
             vs = load_outputs(*names, run_folder=folder)
             return {"type": tname(vs), "v": [terms.enc(v) for v in vs]}
         obs["outputs_many"] = guarded(many)
+    if subset:
+        def some():
+            vs = load_outputs(*subset, run_folder=folder)
+            return {"type": tname(vs), "v": [terms.enc(v) for v in vs] if len(subset) > 1 else [terms.enc(vs)]}
+        obs["outputs_subset"] = guarded(some)
     obs["run_info"] = guarded(lambda: enc_run_info(RunInfo.load(folder)))
     if xarray:
         obs["xarray"] = guarded(lambda: enc_dataset(load_xarray_dataset(run_folder=folder)))
